@@ -55,6 +55,7 @@ def rxByName : String → Option Rx
   | "htmlOpenCloseTagRe" => some Gen.htmlOpenCloseTagRe
   | "linkOpenRe" => some Gen.linkOpenRe
   | "linkCloseRe" => some Gen.linkCloseRe
+  | "tableHeaderRe" => some Gen.tableHeaderRe
   | n =>
     if n.startsWith "htmlSeqStart" then (Gen.htmlSequences[(n.drop 12).toNat!]?).map (·.1)
     else if n.startsWith "htmlSeqEnd" then (Gen.htmlSequences[(n.drop 10).toNat!]?).map (·.2.1)
